@@ -101,6 +101,15 @@ class ConvexMonitor(solvex.Monitor):
             ex.violate("is_projection_output", "call %d (%s): x=%s is not an output of the projection routine" % (
                 call["k"], call["site"], x.tolist()))
             return
+        # it must be an output of the routine run over the constraint sets themselves (user sets + bound box): a point that
+        # only matches a call over some other list (e.g. one that also contains a trust-region ball, where the box is not
+        # last) is not what the property describes
+        if ents and not [e for e in ents if e["p"] == p]:
+            if call["k"] > 1 or ex.tags.__contains__("x0_infeasible"):
+                ex.violate("is_projection_output", "call %d (%s): x=%s only matches projection calls over %s projectors, not over the %d "
+                           "constraint sets (user sets + bound box)" % (call["k"], call["site"], x.tolist(),
+                                                                         sorted(set(e["p"] for e in ents)), p))
+                return
         # exact box (projected last)
         if ex.lo is not None and (np.any(x < ex.lo) or np.any(x > ex.hi)):
             ex.violate("box_exact", "call %d (%s): x=%s outside the bound box" % (call["k"], call["site"], x.tolist()))
